@@ -259,6 +259,20 @@ def component_aware(rep):
     hi, m = [norm(e) for e in lp.target.elts]
     # the in-use marker: a set that receives .add(hi) in the loop
     adds = [(n, b) for n, b in pfind("$u.add($h)", lp, {"h": hi})]
+    if not adds:
+        # functional style: the occupied host components travel down the recursion as a parameter that the loop tests (`if hi in claimed: continue`);
+        # every recursive call must hand down that set plus the component just taken - a call that passes anything else forgets the reservations
+        marks = [p_ for p_ in bt.params[1:] if any(pmatch(f"{hi} in {p_}", t) is not None or pmatch(f"{hi} not in {p_}", t) is not None
+                                                  for n_ in walk_local(lp) if isinstance(n_, ast.If) for t in ast.walk(n_.test))]
+        recs = [c_ for c_ in walk_local(lp) if isinstance(c_, ast.Call) and isinstance(c_.func, ast.Name) and c_.func.id == bt.node.name]
+        if len(marks) == 1 and recs:
+            pos = bt.params.index(marks[0])
+            for c_ in recs:
+                arg = c_.args[pos] if pos < len(c_.args) else kwarg(c_, marks[0])
+                names_ = {x.id for x in ast.walk(arg) if isinstance(x, ast.Name)} if arg is not None else set()
+                okf = None if arg is None else (marks[0] in names_ and hi in names_) or (False if marks[0] not in names_ else None)
+                rep.ob("O6.4", "R6d", bt, okf, c_, f"the recursive call hands down the occupied host components `{marks[0]}` extended by `{hi}` "
+                       "(a call that passes another set lets later pattern components re-use a host component)", {"passed": norm(arg) if arg is not None else None}, node=c_)
     rep.need("R6d", len(adds), 1, "<used>.add(hi) in backtrack")
     used = adds[0][1]["u"]
     rems = [n for n, b in pfind("$u.remove($h)", lp, {"u": used, "h": hi})] + [n for n, b in pfind("$u.discard($h)", lp, {"u": used, "h": hi})]
